@@ -11,6 +11,7 @@ import TaskctlVerif.Model.Layers
 import TaskctlVerif.Model.Vars
 import TaskctlVerif.Model.Capture
 import TaskctlVerif.Model.Imports
+import TaskctlVerif.Model.GlobalCfg
 import TaskctlVerif.Model.Refs
 import TaskctlVerif.Model.Loader
 import TaskctlVerif.Model.Output
@@ -129,6 +130,20 @@ def treeCase (fields : List String) : String :=
   let root := Sched.treeFinal tn fuel []
   s!"err={if root.gerr then 1 else 0}|" ++
     "|".intercalate (nodes.map fun (path, nd) => s!"{path}=" ++ finalStr nd.n (Sched.treeFinal tn fuel nd.p))
+
+/-- `gsplit g=t:d0,c:d1,v:d2 p=t:d3` : definitions (t task, c context, v variable) in the global and in the project
+file; answer: the names a project sees, per section, sorted -/
+def gsplitCase (fields : List String) : String :=
+  let parse (s : String) : GlobalCfg.Cfg String :=
+    let items := (splitNonEmpty s ",").filterMap fun e =>
+      match e.splitOn ":" with
+      | [k, n] => some (k, n)
+      | _ => none
+    let sect (k : String) : GlobalCfg.Sect String := (items.filter (·.1 == k)).map fun e => (e.2, e.2)
+    { tasks := sect "t", contexts := sect "c", variables := sect "v" }
+  let r := GlobalCfg.load (parse (kv fields "g")) (parse (kv fields "p"))
+  let names (s : GlobalCfg.Sect String) : String := ",".intercalate ((GlobalCfg.keys s).toArray.qsort (· < ·)).toList
+  s!"t={names r.tasks}|c={names r.contexts}|v={names r.variables}"
 
 /-- `cockpit a1 r1 r7 a2 f r2`: starts (`a`), finishes (`r`) and frames (`f`) of numbered tasks, then the
 cockpit is closed: the "Finished" lines printed, in order -/
@@ -476,6 +491,7 @@ def handle (line0 : String) : String :=
   | "impshape" :: rest => impshapeCase rest
   | "prefixed" :: rest => prefixedCase rest
   | "cockpit" :: rest => cockpitCase rest
+  | "gsplit" :: rest => gsplitCase rest
   | "native" :: _ => nativeCase
   | "glob" :: rest => globCase rest
   | "select" :: rest => selectCase rest
